@@ -14,6 +14,7 @@ import (
 	"os/exec"
 	"strconv"
 	"strings"
+	"syscall"
 	"time"
 )
 
@@ -42,7 +43,7 @@ type Solver struct {
 	declared  map[string]bool
 	stack     []*Term
 	axLevel   map[int]int // asserted axiom id -> push level
-	pending   bool // a query's push level is still open
+	pending   bool        // a query's push level is still open
 	timeoutMs int
 	stats     *SolverStats
 	log       *os.File
@@ -64,6 +65,8 @@ func NewSolver(kind string, timeoutMs int, stats *SolverStats) *Solver {
 	default:
 		panic("unknown solver " + kind)
 	}
+	// the solver must not outlive the checker (a killed checker would leave a busy solver spinning)
+	cmd.SysProcAttr = &syscall.SysProcAttr{Pdeathsig: syscall.SIGKILL}
 	in, _ := cmd.StdinPipe()
 	outp, _ := cmd.StdoutPipe()
 	cmd.Stderr = cmd.Stdout
